@@ -273,6 +273,7 @@ func tcpCase(c *vkit.Ctx, w *worker, env *tcpEnv, i int, sp *streamSpec, writes 
 	sp.soft, sp.minBuf = soft, bufLen
 	a := analyse(sp.ht, sp.data)
 	c.LogCase(fmt.Sprintf("tcp-%s/%d stream=%s", cfg, i, hex.EncodeToString(sp.data[:minInt(len(sp.data), 400)])))
+	t0 := time.Now() // before the dial: the listener's side of the connection exists, and its read deadline runs, from the handshake on
 	conn, err := net.Dial("tcp", addr)
 	if err != nil {
 		noteSkip(w, "dial", fmt.Sprintf("tcp-%s case %d: dial: %v", cfg, i, err))
@@ -284,7 +285,6 @@ func tcpCase(c *vkit.Ctx, w *worker, env *tcpEnv, i int, sp *streamSpec, writes 
 	local := conn.LocalAddr().String()
 	sink := rec.get(local)
 	defer rec.drop(local)
-	t0 := time.Now()
 	prev := 0
 	for _, wr := range writes {
 		if _, err := conn.Write(sp.data[prev:wr.end]); err != nil {
